@@ -110,6 +110,7 @@ func valuePool(full bool) []*variants.Variant {
 			d(time.Hour), d(time.Nanosecond), d(-1500*time.Millisecond),
 			t(1700000000), t(-5),
 			variants.VariantFromArray([]*variants.Variant{}), variants.VariantFromObject(map[string]int{"a": 1}),
+			variants.VariantFromInteger(64), variants.VariantFromInteger(10), variants.VariantFromLong(19), variants.VariantFromInteger(-3), variants.VariantFromLong(41), variants.VariantFromLong(2),
 		)
 	}
 	return pool
@@ -340,6 +341,51 @@ func execC06(seg []Ev) []Ev {
 			if r2 != nil {
 				e["r2"] = valJSON(r2)
 			}
+		case "alias":
+			// the result of an operation must not depend on what a caller did to an earlier result:
+			// call, scribble over the returned variant (unless it is one of the operands), call again
+			name := toStr(in["name"])
+			e["name"] = name
+			call := func() (string, *variants.Variant, string) {
+				return opOutcome(func() (*variants.Variant, error) {
+					switch name {
+					case "Not":
+						return m.Not(a)
+					case "Negative":
+						return m.Negative(a)
+					case "Convert":
+						return m.Convert(a, b.Type())
+					}
+					return binCall(m, name, a, b)
+				})
+			}
+			o1, r1, _ := call()
+			e["o1"], e["r1"] = o1, valJSON(r1)
+			e["scribbled"] = false
+			if o1 == "value" && r1 != a && r1 != b {
+				r1.SetAsInteger(424242)
+				e["scribbled"] = true
+			}
+			o2, r2, _ := call()
+			e["o2"], e["r2"] = o2, valJSON(r2)
+		case "powdouble":
+			// '^' on integers is the same exponentiation as on the equal doubles
+			toD := func(v *variants.Variant) *variants.Variant {
+				switch v.Type() {
+				case variants.Integer:
+					return variants.VariantFromDouble(float64(v.AsInteger()))
+				case variants.Long:
+					return variants.VariantFromDouble(float64(v.AsLong()))
+				}
+				return nil
+			}
+			da, db := toD(a), toD(b)
+			e["o1"], e["r1"], e["o2"], e["r2"] = "skip", nilv, "skip", nilv
+			if da != nil && db != nil && valJSON(da)["s"] == valJSON(a)["s"] && valJSON(db)["s"] == valJSON(b)["s"] {
+				o1, r1, _ := opOutcome(func() (*variants.Variant, error) { return m.Pow(a, b) })
+				o2, r2, _ := opOutcome(func() (*variants.Variant, error) { return m.Pow(da, db) })
+				e["o1"], e["r1"], e["o2"], e["r2"] = o1, valJSON(r1), o2, valJSON(r2)
+			}
 		case "in":
 			// container = the pool's array extended with a; item = b
 			elems := []*variants.Variant{variants.VariantFromInteger(1), variants.VariantFromString("abc"), a, variants.VariantFromDouble(2)}
@@ -445,6 +491,12 @@ func genC06(g *Gen) {
 					g.Run("algebraic laws", []Ev{{"op": "law", "mgr": mgr, "law": law, "ai": ai, "bi": bi, "full": full}})
 				}
 				g.Run("membership", []Ev{{"op": "in", "mgr": mgr, "ai": ai, "bi": bi, "full": full}})
+				for _, name := range []string{"Add", "Sub", "Mul", "Div", "Mod", "And", "Equal", "Less", "In", "Pow", "Lsh"} {
+					if (ai+bi)%3 == 0 || ai == 0 || bi == 0 {
+						g.Run("results are not aliased between calls", []Ev{{"op": "alias", "mgr": mgr, "name": name, "ai": ai, "bi": bi, "full": full}})
+					}
+				}
+				g.Run("'^' on integers equals '^' on the equal doubles", []Ev{{"op": "powdouble", "mgr": mgr, "ai": ai, "bi": bi, "full": full}})
 			}
 		}
 	}
